@@ -269,6 +269,18 @@ MECH_ENTRIES = {
     "Staircase:gamma": _mech(lambda rs, r: M.Staircase(epsilon=0.5, sensitivity=1, gamma=0.3, random_state=rs),
                              lambda r: [r.uniform(-5, 5)]),
     "Uniform": _mech(lambda rs, r: M.Uniform(delta=0.1, sensitivity=1, random_state=rs), lambda r: [r.uniform(-5, 5)]),
+    "Exponential:bytes-candidates": _mech(
+        lambda rs, r: M.Exponential(epsilon=0.1, sensitivity=1, utility=_utils(r, 4), candidates=[b"w", b"x", b"y", b"z"],
+                                    random_state=rs), lambda r: [_NOARG], n_calls=96, post=repr),
+    "Exponential:mixed-candidates": _mech(
+        lambda rs, r: M.Exponential(epsilon=0.1, sensitivity=1, utility=_utils(r, 5), candidates=[1, "x", b"y", (1, "z"), 2.5],
+                                    random_state=rs), lambda r: [_NOARG], n_calls=96, post=repr),
+    "PermuteAndFlip:mixed-candidates": _mech(
+        lambda rs, r: M.PermuteAndFlip(epsilon=0.1, sensitivity=1, utility=_utils(r, 5), candidates=[1, "x", b"y", (1, "z"), 2.5],
+                                       random_state=rs), lambda r: [_NOARG], n_calls=96, post=repr),
+    "ExponentialHierarchical:deep": _mech(
+        lambda rs, r: M.ExponentialHierarchical(epsilon=0.1, hierarchy=[[["ant", "bee"], ["cat", "dog"]], [["eel", "fox"], ["gnu", "hen"]]],
+                                                random_state=rs), lambda r: ["ant", "fox"], n_calls=96),
     "Vector": _vector_fn,
     "bernoulli_neg_exp": _bneg_fn,
     "bernoulli_neg_exp:direct-seed": _bneg_direct_fn,
@@ -378,39 +390,96 @@ def _attrs(m, names):
     return [getattr(m, n) for n in names]
 
 
-MODEL_ENTRIES = {
-    "GaussianNB": _model(lambda X, y, Xt, rs: (lambda m: _attrs(m, ["theta_", "var_", "class_count_", "class_prior_"]) +
-                                             [m.predict_proba(Xt)])(MD.GaussianNB(epsilon=1.0, bounds=(0, 1), random_state=rs).fit(X, y))),
-    "GaussianNB:priors": _model(lambda X, y, Xt, rs: (lambda m: _attrs(m, ["theta_", "var_", "class_count_"]))(
-        MD.GaussianNB(epsilon=1.0, bounds=(0, 1), priors=[0.2, 0.3, 0.5], random_state=rs).fit(X, y))),
-    "KMeans": _model(lambda X, y, Xt, rs: (lambda m: [m.cluster_centers_, m.predict(Xt)])(
-        MD.KMeans(3, epsilon=1.0, bounds=(0, 1), random_state=rs).fit(X))),
-    "StandardScaler": _model(lambda X, y, Xt, rs: (lambda m: _attrs(m, ["mean_", "var_", "scale_"]) + [m.transform(Xt)])(
-        MD.StandardScaler(epsilon=1.0, bounds=(0, 1), random_state=rs).fit(X))),
-    "StandardScaler:no-std": _model(lambda X, y, Xt, rs: (lambda m: [m.mean_])(
-        MD.StandardScaler(epsilon=1.0, bounds=(0, 1), with_std=False, random_state=rs).fit(X))),
-    "LinearRegression": _model(lambda X, y, Xt, rs: (lambda m: [m.coef_, m.intercept_, m.predict(Xt)])(
-        MD.LinearRegression(epsilon=1.0, bounds_X=(0, 1), bounds_y=(0, 2), random_state=rs).fit(X, y.astype(float)))),
-    "LinearRegression:no-intercept": _model(lambda X, y, Xt, rs: (lambda m: [m.coef_])(
-        MD.LinearRegression(epsilon=1.0, bounds_X=(0, 1), bounds_y=(0, 2), fit_intercept=False, random_state=rs).fit(X, y.astype(float)))),
-    "LogisticRegression:binary": _model(lambda X, y, Xt, rs: (lambda m: [m.coef_, m.intercept_, m.predict_proba(Xt)])(
-        MD.LogisticRegression(epsilon=1.0, data_norm=2.0, random_state=rs).fit(X, y)), classes=2),
-    "LogisticRegression:multiclass": _model(lambda X, y, Xt, rs: (lambda m: [m.coef_, m.intercept_, m.predict_proba(Xt)])(
-        MD.LogisticRegression(epsilon=1.0, data_norm=2.0, random_state=rs).fit(X, y)), classes=4),
-    "LogisticRegression:no-intercept": _model(lambda X, y, Xt, rs: (lambda m: [m.coef_])(
-        MD.LogisticRegression(epsilon=1.0, data_norm=2.0, fit_intercept=False, random_state=rs).fit(X, y)), classes=3),
-    "PCA": _model(lambda X, y, Xt, rs: (lambda m: _attrs(m, ["components_", "explained_variance_", "mean_"]) + [m.transform(Xt)])(
-        MD.PCA(2, epsilon=1.0, bounds=(0, 1), data_norm=2.0, random_state=rs).fit(X))),
-    "PCA:centered:all-components": _model(lambda X, y, Xt, rs: (lambda m: _attrs(m, ["components_", "explained_variance_"]))(
-        MD.PCA(epsilon=1.0, data_norm=2.0, centered=True, random_state=rs).fit(X - 0.5))),
-    "DecisionTreeClassifier": _model(lambda X, y, Xt, rs: (lambda m: tree_arrays(m) + [m.predict_proba(Xt)])(
-        MD.DecisionTreeClassifier(max_depth=3, epsilon=1.0, bounds=(0, 1), classes=[0, 1, 2], random_state=rs).fit(X, y))),
-    "RandomForestClassifier": _model(lambda X, y, Xt, rs: forest_outputs(
-        MD.RandomForestClassifier(5, max_depth=3, epsilon=1.0, bounds=(0, 1), classes=[0, 1, 2], random_state=rs).fit(X, y), Xt)),
-    "RandomForestClassifier:shuffle": _model(lambda X, y, Xt, rs: forest_outputs(
-        MD.RandomForestClassifier(4, max_depth=3, epsilon=1.0, bounds=(0, 1), classes=[0, 1, 2], shuffle=True,
-                                  random_state=rs).fit(X, y), Xt)),
+def _lab(kind):
+    """class labels of another type.  (bytes labels are rejected by sklearn's target validation, ExponentialCategorical
+    accepts only str keys, mixed-type label arrays cannot be sorted: those are not entry points.)"""
+    names = {"str": ["ant", "bee", "cat", "dog", "eel"], "bytes": [b"ant", b"bee", b"cat", b"dog", b"eel"]}[kind]
+    return lambda y: np.array([names[int(v)] for v in y])
+
+
+def _spec(make, outs, fit=None, classes=3, labels=None, yfloat=False):
+    return {"make": make, "outs": outs, "fit": fit or (lambda m, X, y: m.fit(X, y)), "classes": classes, "labels": labels,
+            "yfloat": yfloat}
+
+
+_LR_OUT = lambda m, Xt: [m.coef_, m.intercept_, m.predict_proba(Xt), m.classes_]          # noqa: E731
+_NB_OUT = lambda m, Xt: _attrs(m, ["theta_", "var_", "class_count_", "class_prior_"]) + [m.predict_proba(Xt), m.classes_]  # noqa: E731
+_TREE_OUT = lambda m, Xt: tree_arrays(m) + [m.predict_proba(Xt), m.predict(Xt)]         # noqa: E731
+_FOREST_OUT = lambda m, Xt: forest_outputs(m, Xt) + [m.predict(Xt)]                     # noqa: E731
+_STR3 = ["ant", "bee", "cat"]
+
+# every estimator as (constructor from the seed, fit, observed outputs): the entry point is outs(fit(make(seed))); the
+# re-use sequences of check_reuse work on the same three pieces
+MODEL_SPECS = {
+    "GaussianNB": _spec(lambda rs: MD.GaussianNB(epsilon=1.0, bounds=(0, 1), random_state=rs), _NB_OUT),
+    "GaussianNB:priors": _spec(lambda rs: MD.GaussianNB(epsilon=1.0, bounds=(0, 1), priors=[0.2, 0.3, 0.5], random_state=rs),
+                               lambda m, Xt: _attrs(m, ["theta_", "var_", "class_count_"])),
+    "GaussianNB:str-labels": _spec(lambda rs: MD.GaussianNB(epsilon=1.0, bounds=(0, 1), random_state=rs), _NB_OUT, labels="str"),
+    "KMeans": _spec(lambda rs: MD.KMeans(3, epsilon=1.0, bounds=(0, 1), random_state=rs),
+                    lambda m, Xt: [m.cluster_centers_, m.predict(Xt)], fit=lambda m, X, y: m.fit(X)),
+    "StandardScaler": _spec(lambda rs: MD.StandardScaler(epsilon=1.0, bounds=(0, 1), random_state=rs),
+                            lambda m, Xt: _attrs(m, ["mean_", "var_", "scale_"]) + [m.transform(Xt)], fit=lambda m, X, y: m.fit(X)),
+    "StandardScaler:no-std": _spec(lambda rs: MD.StandardScaler(epsilon=1.0, bounds=(0, 1), with_std=False, random_state=rs),
+                                   lambda m, Xt: [m.mean_], fit=lambda m, X, y: m.fit(X)),
+    "LinearRegression": _spec(lambda rs: MD.LinearRegression(epsilon=1.0, bounds_X=(0, 1), bounds_y=(0, 2), random_state=rs),
+                              lambda m, Xt: [m.coef_, m.intercept_, m.predict(Xt)], yfloat=True),
+    "LinearRegression:no-intercept": _spec(
+        lambda rs: MD.LinearRegression(epsilon=1.0, bounds_X=(0, 1), bounds_y=(0, 2), fit_intercept=False, random_state=rs),
+        lambda m, Xt: [m.coef_], yfloat=True),
+    "LogisticRegression:binary": _spec(lambda rs: MD.LogisticRegression(epsilon=1.0, data_norm=2.0, random_state=rs), _LR_OUT, classes=2),
+    "LogisticRegression:multiclass": _spec(lambda rs: MD.LogisticRegression(epsilon=1.0, data_norm=2.0, random_state=rs), _LR_OUT,
+                                           classes=4),
+    "LogisticRegression:no-intercept": _spec(
+        lambda rs: MD.LogisticRegression(epsilon=1.0, data_norm=2.0, fit_intercept=False, random_state=rs),
+        lambda m, Xt: [m.coef_]),
+    "LogisticRegression:str-labels": _spec(lambda rs: MD.LogisticRegression(epsilon=1.0, data_norm=2.0, random_state=rs), _LR_OUT,
+                                           classes=4, labels="str"),
+    "LogisticRegression:str-labels:binary": _spec(lambda rs: MD.LogisticRegression(epsilon=1.0, data_norm=2.0, random_state=rs),
+                                                  _LR_OUT, classes=2, labels="str"),
+    "PCA": _spec(lambda rs: MD.PCA(2, epsilon=1.0, bounds=(0, 1), data_norm=2.0, random_state=rs),
+                 lambda m, Xt: _attrs(m, ["components_", "explained_variance_", "mean_"]) + [m.transform(Xt)],
+                 fit=lambda m, X, y: m.fit(X)),
+    "PCA:centered:all-components": _spec(lambda rs: MD.PCA(epsilon=1.0, data_norm=2.0, centered=True, random_state=rs),
+                                         lambda m, Xt: _attrs(m, ["components_", "explained_variance_"]),
+                                         fit=lambda m, X, y: m.fit(X - 0.5)),
+    "DecisionTreeClassifier": _spec(
+        lambda rs: MD.DecisionTreeClassifier(max_depth=3, epsilon=1.0, bounds=(0, 1), classes=[0, 1, 2], random_state=rs), _TREE_OUT),
+    "DecisionTreeClassifier:str-labels": _spec(
+        lambda rs: MD.DecisionTreeClassifier(max_depth=3, epsilon=1.0, bounds=(0, 1), classes=_STR3, random_state=rs), _TREE_OUT,
+        labels="str"),
+    "RandomForestClassifier": _spec(
+        lambda rs: MD.RandomForestClassifier(5, max_depth=3, epsilon=1.0, bounds=(0, 1), classes=[0, 1, 2], random_state=rs), _FOREST_OUT),
+    "RandomForestClassifier:shuffle": _spec(
+        lambda rs: MD.RandomForestClassifier(4, max_depth=3, epsilon=1.0, bounds=(0, 1), classes=[0, 1, 2], shuffle=True,
+                                             random_state=rs), _FOREST_OUT),
+    "RandomForestClassifier:str-labels": _spec(
+        lambda rs: MD.RandomForestClassifier(4, max_depth=3, epsilon=1.0, bounds=(0, 1), classes=_STR3, random_state=rs), _FOREST_OUT,
+        labels="str"),
 }
+
+
+def model_data(spec, case_seed, n=60):
+    r, X, y = _data(case_seed, n=n, classes=spec["classes"])
+    Xt = X[:7] * 0.9 + 0.05
+    if spec["labels"]:
+        y = _lab(spec["labels"])(y)
+    elif spec["yfloat"]:
+        y = y.astype(float)
+    return X, y, Xt
+
+
+def _model_entry(spec):
+    def fn(case_seed, rs):
+        X, y, Xt = model_data(spec, case_seed)
+        with warnings.catch_warnings():
+            warnings.simplefilter("ignore")
+            m = spec["make"](_rs(rs))
+            spec["fit"](m, X, y)
+            return spec["outs"](m, Xt)
+    return fn
+
+
+MODEL_ENTRIES = {k: _model_entry(v) for k, v in MODEL_SPECS.items()}
 
 ENTRIES = {}
 ENTRIES.update({"mechanisms." + k: v for k, v in MECH_ENTRIES.items()})
@@ -462,7 +531,10 @@ def child_main():
     sys.stdout.write("\n@@RESULT@@" + json.dumps(out) + "\n")
 
 
-def run_in_fresh_interpreter(jobs, timeout=900, hashseed=4242):
+FRESH_HASHSEEDS = (1, 2)
+
+
+def run_in_fresh_interpreter(jobs, timeout=900, hashseed=1):
     env = _child_env()
     env["PYTHONHASHSEED"] = str(hashseed)        # ./check pins 0 for the parent: a different value in the child exposes
     p = subprocess.run([sys.executable, "-c", CHILD_CODE], input=json.dumps(jobs), capture_output=True, text=True,
@@ -575,22 +647,98 @@ def check_entries(ctx, n_cases, n_fresh):
     ctx.count("entry_points", len(ENTRIES))
     ctx.count("repeat_comparisons", len(ENTRIES) * n_cases)
     ctx.count("seed_pairs_with_different_noise", noisy)
-    # (b) one fresh interpreter runs every entry once more
-    res = run_in_fresh_interpreter([j[:3] for j in jobs])
-    for (name, case_seed, rs1, dg), child in zip(jobs, res):
-        ctx.case(None)
-        if child != dg:
-            k = next((i for i, (x, y) in enumerate(zip(dg, child)) if x != y), -1)
-            lab = "" if isinstance(rs1, int) else ":" + rs1[0]
-            ctx.violation(f"C15:{name}:fresh-process{lab}",
-                          f"{name} with random_state={rs1 if isinstance(rs1, int) else _describe(rs1)} (input case {case_seed}): output {k} computed in a fresh "
-                          f"interpreter differs from the one computed in this process ({child[k] if k >= 0 else child} vs "
-                          f"{dg[k] if k >= 0 else dg})",
-                          {"kind": "entry", "check": "fresh", "entry": name, "case_seed": case_seed, "seed": rs1,
-                           "digest_here": dg, "digest_fresh": child})
-        else:
-            ctx.trace_ok()
-    ctx.count("fresh_interpreter_comparisons", len(jobs))
+    # (b) two fresh interpreters with explicit, different PYTHONHASHSEEDs (the parent runs under ./check's 0) run every
+    # entry once more: any dependence on str/bytes hashes or set order shows deterministically
+    for hs in FRESH_HASHSEEDS:
+        res = run_in_fresh_interpreter([j[:3] for j in jobs], hashseed=hs)
+        for (name, case_seed, rs1, dg), child in zip(jobs, res):
+            ctx.case(None)
+            if child != dg:
+                k = next((i for i, (x, y) in enumerate(zip(dg, child)) if x != y), -1)
+                lab = "" if isinstance(rs1, int) else ":" + rs1[0]
+                ctx.violation(f"C15:{name}:fresh-process{lab}",
+                              f"{name} with random_state={rs1 if isinstance(rs1, int) else _describe(rs1)} (input case "
+                              f"{case_seed}): output {k} computed in a fresh interpreter (PYTHONHASHSEED={hs}) differs from the "
+                              f"one computed in this process (PYTHONHASHSEED={os.environ.get('PYTHONHASHSEED', 'random')}): "
+                              f"{child[k] if k >= 0 else child} vs {dg[k] if k >= 0 else dg}",
+                              {"kind": "entry", "check": "fresh", "entry": name, "case_seed": case_seed, "seed": rs1,
+                               "hashseed": hs, "digest_here": dg, "digest_fresh": child})
+            else:
+                ctx.trace_ok()
+    ctx.count("fresh_interpreter_comparisons", len(jobs) * len(FRESH_HASHSEEDS))
+
+
+# ------------------------------------------------------------------ re-use of one estimator object
+
+def reuse_sequences(spec, case_seed, seed):
+    """name -> outputs; every one of them must equal outputs["fresh"]"""
+    from sklearn.base import clone
+    X, y, Xt = model_data(spec, case_seed)
+    res = {}
+    with warnings.catch_warnings(), seams.fresh_default_accountant():
+        warnings.simplefilter("ignore")
+        def fitted(m):
+            spec["fit"](m, X, y)
+            return spec["outs"](m, Xt)
+        res["fresh"] = fitted(spec["make"](seed))
+        m = spec["make"](seed)
+        res["fit #1"] = fitted(m)
+        res["fit #2 on the same object"] = fitted(m)
+        res["fit #3 on the same object"] = fitted(m)
+        res["clone of the fitted object"] = fitted(clone(m))
+        m.set_params(random_state=seed)
+        res["fit after set_params(random_state=same)"] = fitted(m)
+        res["clone of an unfitted object"] = fitted(clone(spec["make"](seed)))
+        m2 = spec["make"](seed)
+        fitted(m2)
+        _ = spec["outs"](m2, Xt)                 # predicting / transforming in between must not matter either
+        res["fit, predict, fit"] = fitted(m2)
+        if hasattr(m, "partial_fit") and spec["labels"] is None and not spec["yfloat"]:
+            def batches(mm):
+                h = len(X) // 2
+                out = []
+                for sl in (slice(0, h), slice(h, None), slice(0, h)):
+                    if "classes" in inspect.signature(mm.partial_fit).parameters:
+                        mm.partial_fit(X[sl], y[sl], classes=np.unique(y))
+                    else:
+                        mm.partial_fit(X[sl])
+                    out += spec["outs"](mm, Xt)
+                return out
+            res["partial_fit x3 (object A)"] = batches(spec["make"](seed))
+            res["partial_fit x3 (object B)"] = batches(spec["make"](seed))
+            mm = spec["make"](seed)
+            fitted(mm)                            # a previous fit must not influence a fresh sequence after fit()
+            res["fit after partial_fit equals fresh"] = (batches(mm), fitted(mm))[1]
+    return res
+
+
+def check_reuse(ctx, n_cases):
+    r = ctx.fork("reuse")
+    for name, spec in MODEL_SPECS.items():
+        for _ in range(n_cases):
+            case_seed, seed = r.randint(0, 10 ** 6), r.randint(0, 2 ** 31 - 2)
+            res = reuse_sequences(spec, case_seed, seed)
+            ref = res["fresh"]
+            bad = False
+            for seq, outs in res.items():
+                if seq.startswith("partial_fit x3"):
+                    cmp_to, what = res["partial_fit x3 (object A)"], "the same sequence on another fresh object"
+                else:
+                    cmp_to, what = ref, "a fresh estimator fitted once"
+                d = first_diff(cmp_to, outs)
+                if d:
+                    bad = True
+                    tag = seq.split(" (")[0].replace(" ", "-")
+                    ctx.violation(f"C15:models.{name}:reuse:{tag}",
+                                  f"models.{name} with random_state={seed} (input case {case_seed}): `{seq}` differs from {what}: "
+                                  f"output {d[0]} element {d[1]} is {d[3]!r} vs {d[2]!r}",
+                                  {"kind": "reuse", "entry": name, "case_seed": case_seed, "seed": seed, "sequence": seq,
+                                   "first_difference": d})
+                    break
+            ctx.case(("reuse", name, case_seed, seed))
+            if not bad:
+                ctx.trace_ok()
+    ctx.count("reuse_sequences_compared", len(MODEL_SPECS) * n_cases)
 
 
 # ------------------------------------------------------------------ (d) n_jobs and completion order
@@ -999,6 +1147,8 @@ def check(ctx):
     # (a)(b)(c)
     check_entries(ctx, n_cases=ctx.budget(3, 100), n_fresh=ctx.budget(1, 10))
     phase("entries (a)(b)(c)")
+    check_reuse(ctx, ctx.budget(2, 30))
+    phase("estimator re-use")
     # (d) forest
     r = ctx.fork("parallel")
     fcases = [forest_case(r) for _ in range(ctx.budget(8, 500))]
@@ -1074,7 +1224,7 @@ def replay(ctx, data):
         if d["check"] == "repeat":
             return first_diff(a, run_entry(name, cs, rs)) is not None
         if d["check"] == "fresh":
-            return run_in_fresh_interpreter([(name, cs, rs)])[0] != digests(a)
+            return any(run_in_fresh_interpreter([(name, cs, rs)], hashseed=hs)[0] != digests(a) for hs in FRESH_HASHSEEDS)
         if d["check"] == "equal-int":
             return first_diff(a, run_entry(name, cs, ["int", rs[1], rs[2]])) is not None
         return all(first_diff(a, run_entry(name, cs, s)) is None for s in (d["seed2"], d["seed2"] + 17, d["seed2"] + 18))
@@ -1086,6 +1236,10 @@ def replay(ctx, data):
         check_logreg(c, [d["case"]])
     elif kind == "logreg-repeat":
         check_logreg_repeat(c, d["case"], reps=6)
+    elif kind == "reuse":
+        res = reuse_sequences(MODEL_SPECS[d["entry"]], d["case_seed"], d["seed"])
+        cmp_to = res["partial_fit x3 (object A)"] if d["sequence"].startswith("partial_fit x3") else res["fresh"]
+        return first_diff(cmp_to, res[d["sequence"]]) is not None
     elif kind == "subset-expr":
         expr = source_expression()
         got = np.asarray(eval(expr, {"np": np, "tree_idxs": np.arange(d["n"]), "n_samples": d["n"],
